@@ -93,7 +93,7 @@ func Execute(b *[]byte, p unsafe.Pointer, s *vars.Stack, flags uint64, prog *ir.
 			x, f, p, q = s.Drop()
 		case ir.OP_recurse:
 			vt, pv := ins.Vp2()
-			f := flags
+			f := flags &^ (1 << alg.BitPointerValue)
 			if pv {
 				f |= (1 << alg.BitPointerValue)
 			}
@@ -191,13 +191,13 @@ func Execute(b *[]byte, p unsafe.Pointer, s *vars.Stack, flags uint64, prog *ir.
 			}
 		case ir.OP_eface:
 			*b = buf
-			if err := EncodeTypedPointer(b, *(**rt.GoType)(p), (*unsafe.Pointer)(rt.Add(p, 8)), s, flags); err != nil {
+			if err := EncodeTypedPointer(b, *(**rt.GoType)(p), (*unsafe.Pointer)(rt.Add(p, 8)), s, flags&^(1<<alg.BitPointerValue)); err != nil {
 				return err
 			}
 			buf = *b
 		case ir.OP_iface:
 			*b = buf
-			if err := EncodeTypedPointer(b, (*(**rt.GoItab)(p)).Vt, (*unsafe.Pointer)(rt.Add(p, 8)), s, flags); err != nil {
+			if err := EncodeTypedPointer(b, (*(**rt.GoItab)(p)).Vt, (*unsafe.Pointer)(rt.Add(p, 8)), s, flags&^(1<<alg.BitPointerValue)); err != nil {
 				return err
 			}
 			buf = *b
